@@ -146,6 +146,7 @@ impl<R: Read, TSpec> TagIterator<R, TSpec>
     pub fn try_recover(&mut self) -> Result<(), TagIteratorError> {
         let original_position = self.current_offset();        
         loop {
+            #[cfg(feature = "verif-hooks")] crate::verif::tick();
             if !self.ensure_data_read(1)? {
                 return Err(TagIteratorError::UnexpectedEOF { tag_start: self.current_offset(), tag_id: None, tag_size: None, partial_data: None });
             }
@@ -250,6 +251,7 @@ impl<R: Read, TSpec> TagIterator<R, TSpec>
             self.internal_buffer_position = 0;
         } else {
             while self.internal_buffer_position + length > self.buffered_byte_length {
+                #[cfg(feature = "verif-hooks")] crate::verif::tick();
                 self.buffer.copy_within(self.internal_buffer_position..self.buffered_byte_length, 0);
                 self.buffered_byte_length -= self.internal_buffer_position;
                 self.buffer_offset = Some(self.current_offset());
@@ -443,6 +445,7 @@ impl<R: Read, TSpec> TagIterator<R, TSpec>
         if let Some(next_read) = self.read_tag_checked() {
             if let Ok(next_tag) = &next_read {
                 while matches!(self.tag_stack.last(), Some(open_tag) if open_tag.size == Unknown) {
+                    #[cfg(feature = "verif-hooks")] crate::verif::tick();
                     let open_tag = self.tag_stack.last().unwrap();
                     let previous_tag_ended = open_tag.is_ended_by(next_tag.tag.get_id());
         
@@ -474,6 +477,7 @@ impl<R: Read, TSpec> TagIterator<R, TSpec>
             self.emission_queue.push_back(next_read.map(|r| (r.tag, r.tag_start)));
         } else if self.emit_master_end_when_eof {
             while let Some(tag) = self.tag_stack.pop() {
+                #[cfg(feature = "verif-hooks")] crate::verif::tick();
                 self.emission_queue.push_back(Ok((tag.tag, tag.tag_start)));
             }
         }
@@ -485,6 +489,7 @@ impl<R: Read, TSpec> TagIterator<R, TSpec>
 
         let mut position = pre_queue_len;
         'endTagSearch: loop {
+            #[cfg(feature = "verif-hooks")] crate::verif::tick();
             if position >= self.emission_queue.len() {
                 self.read_next();
     
@@ -495,6 +500,7 @@ impl<R: Read, TSpec> TagIterator<R, TSpec>
             }
 
             while position < self.emission_queue.len() {
+                #[cfg(feature = "verif-hooks")] crate::verif::tick();
                 if let Some(r) = self.emission_queue.get(position) {
                     match r {
                         Err(_) => break 'endTagSearch,
@@ -526,6 +532,7 @@ impl<R: Read, TSpec> TagIterator<R, TSpec>
 
         let mut iter = children.into_iter();
         while let Some(child) = iter.next() {
+            #[cfg(feature = "verif-hooks")] crate::verif::tick();
             if let Some(Master::Start) = child.as_master() {
                 let child_id = child.get_id();
                 let subchildren = iter.by_ref().take_while(|c| !matches!(c.as_master(), Some(Master::End)) || c.get_id() != child_id).collect();
